@@ -47,6 +47,7 @@ type Profile struct {
 	VotePeriods []uint64
 	Probono     bool
 	OracleFee   string
+	Roundtrip   bool // export the final state, import it into a fresh application (C17)
 	Replica     bool // execute every history twice and compare the app hashes
 	Imported    bool // tenants and records (multi-recipient, weighted) imported through genesis
 }
